@@ -795,7 +795,12 @@ namespace awkward {
     if (paramcheck != std::string("")) {
       return paramcheck;
     }
-    if (mask_.length() * 8 < length_) {
+    if (length_ < 0) {
+      return (std::string("at ") + path + std::string(" (") + classname()
+              + std::string("): ") + std::string("length < 0")
+              + FILENAME(__LINE__));
+    }
+    else if (mask_.length() * 8 < length_) {
       return (std::string("at ") + path + std::string(" (") + classname()
               + std::string("): ") + std::string("len(mask) * 8 < length")
               + FILENAME(__LINE__));
